@@ -542,6 +542,23 @@ def run(world, rep, tier, only=None):
         rep.ob("C12.n", site(uc, "header set up before it is written at close#%d" % i), bool(su) and uc.dominated_by(n, su),
                "undo_setup_tdb() dominates write_undo_indexes() in undo_close()")
 
+    # ------------------------------------------------------------------ C12.o an odd-sized write through unix_io pushes the whole cache out first
+    # undo_write_tdb() and write_undo_indexes() leave the saved data block and the key block in the write-back cache of
+    # the undo file's channel; what pushes them to the file before the device is touched is the odd-sized header write
+    # that follows, because unix_write_blk64() writes back the *whole* cache before a direct (count < 0) write.
+    # The undo file of a run that is killed is only usable because of that: the direct-write arm is dominated by
+    # flush_cached_blocks(), not by a write-back of the overlapping blocks only.
+    uw = prog.fn("unix_write_blk64", "lib/ext2fs/unix_io.c")
+    # (the arm is entered through `count < 0 || count > WRITE_DIRECT_SIZE`: a comparison of count that holds)
+    direct = [n for n in calls_to(uw, "raw_write_blk") if any(t is True and isinstance(T.strip(a_), dict) and T.strip(a_).get("k") == "b" and
+                                                              "count" in T.vars_in(a_) and T.strip(a_).get("o") in ("<", ">", "<=", ">=")
+                                                              for t, a_ in control_lits(uw, n) + restrict_lits(uw, n))]
+    fl_all = calls_to(uw, "flush_cached_blocks")
+    rep.floor("C12.o direct-write arm of unix_write_blk64", len(direct), 1)
+    for i, n in enumerate(direct):
+        rep.ob("C12.o", site(uw, "odd-sized write preceded by a write-back of the whole cache#%d" % i), bool(fl_all) and uw.dominated_by(n, fl_all),
+               "flush_cached_blocks() dominates the direct raw_write_blk() on the `count < 0` arm")
+
     # ------------------------------------------------------------------ C12.f e2undo
     cbm = check_blocks(main)
     dev_writes = [n for n in main.call_nodes() if effects.is_write_req(main, n) and T.path(arg(n, 0)) == "channel"]
